@@ -904,11 +904,15 @@ impl Check for C18 {
             if ctx.violations.iter().any(|v| v.sig == sig) {
                 continue;
             }
-            ctx.pre_violation(&sig, &what, &json!({"workload": wv}));
-            ctx.progress("minimise");
-            let wm = shrink_workload(&w, &sig);
-            ctx.violation(sig, what, json!({"workload": wm, "module": module_json(&build_program(&wm))}));
+            ctx.violation(sig, what, json!({"workload": wv, "module": module_json(&build_program(&w))}));
         }
+    }
+    fn minimise(&self, replay: &Json, sig: &Json) -> Json {
+        let Some(w) = replay.get("workload").and_then(|w| serde_json::from_value::<Workload>(w.clone()).ok()) else {
+            return replay.clone();
+        };
+        let wm = shrink_workload(&w, sig);
+        json!({"workload": wm, "module": module_json(&build_program(&wm))})
     }
     fn replay(&self, replay: &Json, ctx: &mut CaseCtx) {
         let Some(w) = replay.get("workload").and_then(|w| serde_json::from_value::<Workload>(w.clone()).ok()) else { return };
